@@ -507,6 +507,23 @@ def _dict_get(s):
     return new
 
 
+def _span_unpack(s):
+    """a, b = M.span()   ->   a = M.start() ; b = M.end()      (re.Match: span() == (start(), end()))"""
+    if not (isinstance(s, ast.Assign) and len(s.targets) == 1 and isinstance(s.targets[0], ast.Tuple) and len(s.targets[0].elts) == 2 and all(isinstance(e, ast.Name) for e in s.targets[0].elts)):
+        return None
+    c = s.value
+    if not (isinstance(c, ast.Call) and isinstance(c.func, ast.Attribute) and c.func.attr == "span" and not c.args and not c.keywords and isinstance(c.func.value, ast.Name)):
+        return None
+    out = []
+    for tgt, meth in zip(s.targets[0].elts, ("start", "end")):
+        call = ast.Call(func=ast.Attribute(value=ast.Name(id=c.func.value.id, ctx=ast.Load()), attr=meth, ctx=ast.Load()), args=[], keywords=[])
+        a = ast.Assign(targets=[ast.Name(id=tgt.id, ctx=ast.Store())], value=call)
+        out.append(ast.fix_missing_locations(ast.copy_location(a, s)))
+        for x in ast.walk(a):
+            ast.copy_location(x, s)
+    return out
+
+
 def _cond_value(fn, s1, s2):
     """v = A if c else B ; <simple statement using v exactly once, v used nowhere else>
          ->  if c: <statement with A> else: <statement with B>"""
@@ -596,6 +613,13 @@ def normalise_idioms(tree) -> int:
                 if new is not None:
                     blk[k] = new
                     n += 1
+            k = 0
+            while k < len(blk):
+                two = _span_unpack(blk[k])
+                if two is not None:
+                    blk[k:k + 1] = two
+                    n += 1
+                k += 1
             i = 0
             while i + 1 < len(blk):
                 new = _get_or_create(blk[i], blk[i + 1])
